@@ -14,7 +14,7 @@ from .solver_common import merge
 
 def _worker(args):
     from .. import bbox
-    from ..impl import to_csc, seed_numba, classify_exc
+    from ..impl import to_csc, case_csc, seed_numba, classify_exc
     prop, seed, chunk, n_cases = args
     rng = random.Random(f"{prop}-{seed}-mtpath-{chunk}")
     rep = Report(prop)
@@ -39,7 +39,7 @@ def _worker(args):
                 W = np.array([[rng.gauss(0, 1) for _ in range(T)] for _ in range(p + fi)])
             W_init = np.ascontiguousarray(W.T)          # documented orientation: (n_tasks, n_features [+1])
         solver, datafit, penalty = case.build()
-        Xin = to_csc(case.X) if case.sparse else np.asfortranarray(case.X)
+        Xin = case_csc(case) if case.sparse else np.asfortranarray(case.X)
         desc = dict(case.describe(), alphas=alphas, W_init=None if W_init is None else W_init.tolist())
         sig = dict(site="MultiTaskBCD.path", fit_intercept=fi, sparse=case.sparse, w_init=mode)
         seed_numba()
